@@ -980,6 +980,14 @@ func (self *PathNode) GetByStr(key string, opts *Options) *PathNode {
 	return nil
 }
 
+// setNode stores a new value in the node. Children loaded from the previous value no longer
+// describe it, and marshal() prefers children over the node's own bytes, so they are dropped.
+func (self *PathNode) setNode(val Node) {
+	self.Node = val
+	// not Next[:0]: hashed lookups address the backing array by capacity
+	self.Next = nil
+}
+
 // SetByStr set the child node by string. Only support MAP with string-type key.
 // If the key already exists, it will be overwritten and return true.
 //
@@ -997,7 +1005,7 @@ func (self *PathNode) SetByStr(key string, val Node, opts *Options) (bool, error
 		// TODO: cap may change after Set. Use better way to store hash size
 		if N := self.hashSize(); N > 0 {
 			if s := getStrHash(&self.Next, key, N); s != nil {
-				s.Node = val
+				s.setNode(val)
 				return true, nil
 			}
 		}
@@ -1006,7 +1014,7 @@ func (self *PathNode) SetByStr(key string, val Node, opts *Options) (bool, error
 	for i := range self.Next {
 		v := &self.Next[i]
 		if v.Path.t == PathStrKey && v.Path.str() == key {
-			v.Node = val
+			v.setNode(val)
 			return true, nil
 		}
 	}
@@ -1063,7 +1071,7 @@ func (self *PathNode) SetByInt(key int, val Node, opts *Options) (bool, error) {
 	if opts.StoreChildrenByHash {
 		if N := self.hashSize(); N > 0 {
 			if s := getIntHash(&self.Next, uint64(key), N); s != nil {
-				s.Node = val
+				s.setNode(val)
 				return true, nil
 			}
 		}
@@ -1072,7 +1080,7 @@ func (self *PathNode) SetByInt(key int, val Node, opts *Options) (bool, error) {
 	for i := range self.Next {
 		v := &self.Next[i]
 		if v.Path.t == PathIntKey && v.Path.int() == key {
-			v.Node = val
+			v.setNode(val)
 			return true, nil
 		}
 	}
@@ -1129,7 +1137,7 @@ func (self *PathNode) SetField(id thrift.FieldID, val Node, opts *Options) (bool
 		if v.Path.t == 0 || v.Path.id() == id {
 			exist := v.Path.t != 0
 			v.Path = NewPathFieldId(id)
-			v.Node = val
+			v.setNode(val)
 			return exist, nil
 		}
 	}
@@ -1137,14 +1145,14 @@ func (self *PathNode) SetField(id thrift.FieldID, val Node, opts *Options) (bool
 	for i := StoreChildrenByIdShreshold; i < len(self.Next); i++ {
 		v := &self.Next[i]
 		if v.Path.t == PathFieldId && v.Path.id() == id {
-			v.Node = val
+			v.setNode(val)
 			return true, nil
 		}
 	}
 	for i := 0; i < len(self.Next) && i < StoreChildrenByIdShreshold; i++ {
 		v := &self.Next[i]
 		if v.Path.t == PathFieldId && v.Path.id() == id {
-			v.Node = val
+			v.setNode(val)
 			return true, nil
 		}
 	}
